@@ -60,11 +60,19 @@ def build(rng, *, block_size: int, nblocks: int, tail_cut: int = 0, states=None,
     data_offset = -(-(blocks_offset + len(map_bytes)) // SECTOR) * SECTOR + data_gap
     uuid = uuid or bytes(rng.randrange(256) for _ in range(16))
     snap_uuid = bytes(rng.randrange(256) for _ in range(16))
-    hdr = b"<<< Oracle VM VirtualBox Disk Image >>>\n".ljust(64, b"\0")
-    hdr += struct.pack("<IIIII", SIGNATURE, 0x00010001, header_size, image_type, 0)
+    info = rng.random() < 0.6  # informational fields: any value is well-formed
+    banner = rng.choice([b"<<< Oracle VM VirtualBox Disk Image >>>\n", b"<<< innotek VirtualBox Disk Image >>>\n", b"<<< QEMU VM Virtual Disk Image >>>\n",
+                         b"<<< Sun xVM VirtualBox Disk Image >>>\n"]) if info else b"<<< Oracle VM VirtualBox Disk Image >>>\n"
+    hdr = banner.ljust(64, b"\0")
+    hdr += struct.pack("<IIIII", SIGNATURE, 0x00010001, header_size, image_type, rng.choice([0, 0, 2]) if info else 0)
     hdr += description.ljust(256, b"\0")[:256]
-    hdr += struct.pack("<IIIIIIIQIIII", blocks_offset, data_offset, 0, 0, 0, 512, 0, size, block_size, 0, nblocks, len(alloc))
-    hdr += uuid + snap_uuid + b"\0" * 16 + parent_uuid
+    geo = (rng.getrandbits(16), rng.randrange(1, 256), rng.randrange(1, 64)) if info else (0, 0, 0)
+    hdr += struct.pack("<IIIIIIIQIIII", blocks_offset, data_offset, geo[0], geo[1], geo[2], 512, rng.getrandbits(32) if info else 0, size, block_size, 0, nblocks,
+                       len(alloc))
+    hdr += uuid + snap_uuid + (bytes(rng.randrange(256) for _ in range(16)) if info and rng.random() < 0.3 else b"\0" * 16) + parent_uuid
+    if info and blocks_offset >= 512:
+        # "garbage / unused" tail of the header sector (LCHS geometry of newer versions lives here)
+        hdr += struct.pack("<IIII", rng.getrandbits(16), rng.randrange(1, 256), rng.randrange(1, 64), 512)
     sf = SparseFile()
     sf.put(0, hdr)
     sf.put(blocks_offset, map_bytes)
